@@ -45,7 +45,10 @@ private theorem readStringBody_jsonEscape (n : Nat) (v rest : Text) :
     split
     · rename_i h; subst h; rw [readStringBody.eq_def]; simp [q7, ih]
     split
-    · rename_i h; rw [readStringBody.eq_def]; simp [q8, hex_low c h, ih]
+    · rename_i h
+      have hh : isHighSurrogate c = false := by simp [isHighSurrogate]; omega
+      simp only [List.cons_append, List.nil_append]
+      rw [readStringBody_unicode_single n _ _ _ _ c _ (hex_low c h) hh]; simp [ih]
     · rename_i h1 h2 h3 h4 h5 h6 h7 h8
       have hp : isPrintable c = true := by simp [isPrintable]; omega
       rw [readStringBody.eq_def]
@@ -85,6 +88,16 @@ theorem quoted_roundtrip (v : Text) :
   have hign : isIgnored 34 = false := by decide
   have hpr : isPrintable 34 = true := by decide
   simp [hign, hpr, hsym, hnotq, readString, hbody, Except.map, sofTok, eofTok, readOverWhitespace, posAt]
+
+/-- fix C02-U1 and the printer: only ESCAPE pairs are combined by the lexer, and the printer never emits `\\uXXXX` for a
+    code point ≥ U+0020 — an astral character and lone surrogates are printed as the literal characters. So a value made
+    of a lone high followed by a lone low surrogate (two code points, only possible in code-built trees now) is printed
+    literally and re-read as the same two code points: it is an instance of `quoted_roundtrip`, which holds unchanged
+    for EVERY code-point list. -/
+example : jsonDumps [0xD83D, 0xDE00] = [34, 0xD83D, 0xDE00, 34] := by decide
+example : (lexAll (jsonDumps [0xD83D, 0xDE00])).toOption.map (·.map (·.value)) =
+    some [sofTok.value, [0xD83D, 0xDE00], (eofTok 0).value] := by decide
+example : jsonDumps [0x1F600] = [34, 0x1F600, 34] := by decide
 
 /-- non-vacuity: `a"😀\` + U+0001 + lone surrogate U+D800 -/
 example : jsonDumps [97, 34, 0x1F600, 92, 1, 0xD800] = [34, 97, 92, 34, 0x1F600, 92, 92, 92, 117, 48, 48, 48, 49, 0xD800, 34] := by decide
